@@ -73,7 +73,7 @@ PROPS = {
         "Partial: the composition 'call = value of the body' is per-mechanism, not end-to-end. Known deviation K1 (parameter type taken from the mangled name's first letter F) is outside the generated fragment unless DEFtype F is used.",
         ["ses", "find-c10"], RULE_PROG),
     "C11": _p(
-        "Theorems: number wrapper (leading blank or minus, PRINT appends one blank), the comma zone stated against the GENERATED TAB argument: 1..14 blanks ending on a multiple of 14, TAB never moves left, SPC/POS, the tracked column equals the column function of the emitted text (columnAfter, compositional). K: number formatting on 47k values incl. random bit patterns, TAB/POS grid, print-heavy sessions. F: print lists with predicted layout (strings, integers, TAB, SPC, POS, separators) carried across statements.",
+        "Theorems print_statement_run / print_statement_compiled / print_carry_over / item_sees_cursor: the code generated for a PRINT list (strings, numbers, ';', ',', TAB, SPC, POS with pure arguments) run on the real step function from ANY machine state emits exactly the text of the hand-written specification printSpec (items evaluated at the column reached at their point of the list, ',' = 1..14 blanks to the next multiple of 14, final newline unless the list ends in ';' or ','), leaves printCol = columnAfter of that text, stack and variables unchanged; errors stop with the text so far; two statements in sequence emit the concatenation with the column carried over. Theorems: number wrapper (leading blank or minus, PRINT appends one blank), the comma zone stated against the GENERATED TAB argument: 1..14 blanks ending on a multiple of 14, TAB never moves left, SPC/POS, the tracked column equals the column function of the emitted text (columnAfter, compositional). K: number formatting on 47k values incl. random bit patterns, TAB/POS grid, print-heavy sessions. F: print lists with predicted layout (strings, integers, TAB, SPC, POS, separators) carried across statements.",
         "Trusted: Rust's shortest round-trip float formatting (core::fmt contract); the model's exact-arithmetic re-implementation is validated against it by the correspondence.",
         ["ops-fmt", "ses", "find-c11"], RULE_PROG),
     "C12": _p(
